@@ -629,7 +629,7 @@ def real_deps(node):
 def stream_expr(c):
     """(M2) model Expr vs real DAG: range, arguments, evaluated values, and the value preservation of `simplified`"""
     ev = lib()[0]
-    N = 250 if c.tier == 'quick' else 5000
+    N = 250 if c.tier == 'quick' else 10000
     reqs = []; meta = []
     ntry = 0
     while len(meta) < N and ntry < 20 * N:
@@ -716,16 +716,21 @@ def stream_expr(c):
             if (f['len'], f['lenbounds']) != (rlen, rlenb):
                 ndis['shape'] += 1
                 c.broken_no_input('corr:expr:shape', 'announced shape: model (%s, %s), real (%s, %s) for %s' % (f['len'], f['lenbounds'], rlen, rlenb, tok), replay)
-        if f['bounds'] != rb: ndis['bounds'] += 1
+        bounds_differ = f['bounds'] != rb
+        if bounds_differ and f['bounds'] == 'raise' and mv == 'raise' and rv == 'raise' and ('loopSum' in tok or 'mod' in tok):
+            # the default rule evaluates a 0-d constant through `eval_once`, i.e. SIMPLIFIED (a failing operand may be simplified away);
+            # the model evaluates strictly.  Only reachable for expressions whose evaluation raises anyway.
+            c.count('expr-default-rule-on-failing-constant'); bounds_differ = False
+        if bounds_differ: ndis['bounds'] += 1
         if mdeps != rdeps: ndis['deps'] += 1
         eval_differs = mv != rv
         if eval_differs and rv == 'raise' and mv != 'raise' and ('loopConcat' in tok or 'loopSum' in tok):
             # the compiled code evaluates loop-invariant sub-expressions even if the loop runs zero times; the model is lazy
             c.count('expr-hoisted-invariant-raises'); eval_differs = False
         if eval_differs: ndis['eval'] += 1
-        if f['bounds'] != rb or mdeps != rdeps or eval_differs:
+        if bounds_differ or mdeps != rdeps or eval_differs:
             c.sample(dict(replay, disagreement=True), limit=12)
-            c.broken_no_input('corr:expr:' + ('bounds' if f['bounds'] != rb else 'deps' if mdeps != rdeps else 'eval'),
+            c.broken_no_input('corr:expr:' + ('bounds' if bounds_differ else 'deps' if mdeps != rdeps else 'eval'),
                               'model Expr and real DAG disagree on %s' % tok, replay)
         else:
             c.traces += 1
@@ -1033,7 +1038,7 @@ def bind_loops(node):
 
 def stream_dag(c):
     ev = lib()[0]
-    ndags = 40 if c.tier == 'quick' else 600
+    ndags = 40 if c.tier == 'quick' else 1200
     stats = collections.Counter()
     nviol = collections.Counter()
     unexpected = []
@@ -1170,7 +1175,7 @@ def stream_dag(c):
 def stream_func(c):
     from nutils import mesh, function
     rng = c.rng
-    nrounds = 12 if c.tier == 'quick' else 160
+    nrounds = 12 if c.tier == 'quick' else 300
     kinds = {bool: 'b', int: 'i', float: 'f', complex: 'c'}
     nbad = collections.Counter(); nchecked = 0
     for iround in range(nrounds):
@@ -1259,7 +1264,17 @@ def stream_func(c):
                     with numpy.errstate(all='ignore'):
                         val = numpy.asarray(smp.eval(f, {n: args_all[n] for n in announced}))        # ONLY the announced arguments
                 except Exception as e:
-                    val = None; what = 'evaluation with exactly the announced arguments raises %s: %s' % (type(e).__name__, str(e)[:100])
+                    val = None
+                    try:
+                        with numpy.errstate(all='ignore'):
+                            smp.eval(f, args_all)
+                        with_all = True
+                    except Exception:
+                        with_all = False
+                    if with_all or isinstance(e, (KeyError, AssertionError)):
+                        what = 'evaluation with exactly the announced arguments raises %s: %s' % (type(e).__name__, str(e)[:100])
+                    else:
+                        c.count('func-invalid-composition:' + type(e).__name__)   # e.g. numpy.greater on booleans: rejected when lowered
                 if val is not None:
                     nchecked += 1; c.traces += 1
                     c.case(('func', iround, f.shape, f.dtype.__name__, tuple(sorted(announced))), nontrivial=True)
@@ -1320,19 +1335,22 @@ def stream_consumers(c):
             for vx in conc(r1):
                 for vy in conc(r2):
                     want = spec(vx, vy)
-                    if want is not None and want != (vx, vy)[int(fired)]:
-                        bad = (vx, vy, want); break
+                    if want is not None and want != (vx, vy)[int(fired)] or want is None and name in ('inRange', 'normDim'):
+                        bad = (vx, vy, want); break      # a different value, or a run-time check that fails would be dropped
                 if bad: break
         c.case(('consumer', name, r1, r2), nontrivial=fired != 'none')
         if bad:
             vx, vy, want = bad
             try:
                 raw = flat_ints(evaluate(node, dict(x=vx, y=vy)))
+            except Exception as e:
+                raw = 'raises ' + type(e).__name__
+            try:
                 simp = flat_ints(evaluate(res, dict(x=vx, y=vy)))
             except Exception as e:
-                raw, simp = 'exception', repr(e)[:80]
-            if raw != simp:
-                nunsound += 1
+                simp = 'raises ' + type(e).__name__
+            if raw != simp and not (isinstance(raw, str) and isinstance(simp, str)):
+                nunsound += 1; ndis[name] += 1
                 c.failing_input('consumer-unsound:' + type(node).__name__, '%s._simplified replaces the node by an operand although the value differs: operands %r give %r, the rewrite gives %r' % (
                     type(node).__name__, (vx, vy), raw, simp), dict(replay, values=[vx, vy], raw=raw, simplified=simp))
                 continue
